@@ -267,9 +267,12 @@ ActAggregate(out, pkgh, slots, pkph, mode) ==
        /\ Finish("aggregate", res, IF res.ok THEN (out :> [ty |-> "sig", R |-> res.R, z |-> res.z]) ELSE << >>,
                  [op |-> "aggregate", out |-> out, pkg |-> pkgh, shares |-> Pairs(slots), pkp |-> pkph,
                   mode |-> mode,
+                  \* (a refusal on the number of shares is told apart from a signature that merely fails:
+                  \*  the coordinator "refuses to aggregate fewer than threshold-many shares")
                   expect |-> IF res.ok THEN [ok |-> TRUE, R |-> res.R, z |-> res.z,
                                             bytes |-> SigBytes(res.R, res.z)]
-                             ELSE ErrProj(res)])
+                             ELSE ErrProj(res) @@ (IF res.err = "IncorrectNumberOfShares"
+                                                   THEN [refused_on_count |-> TRUE] ELSE << >>)])
 
 \* VerifyingKey::verify(msg, sig) with the key of a public key package
 ActVerify(pkph, msg, sigh) ==
